@@ -1,13 +1,14 @@
 #!/bin/bash
 # usage: tools/collect_seed.sh <Cnn> <tag> <letter>   e.g. C23 e b : /tmp/seed_C23e_out -> seeded/C23-b, run the check on it, confirm the demo
+ROOT=${VERIF_ROOT:-$(cd "$(dirname "$0")/.." && pwd)}   # the checkout this script lives in (a worktree of /verif works too)
 id=$1; tag=$2; let=$3
 src=/tmp/seed_${id}${tag}_out
-dst=/verif/seeded/${id}-${let}
+dst=$ROOT/seeded/${id}-${let}
 [ -f $src/patch.diff ] || { echo "$src/patch.diff missing"; exit 2; }
 mkdir -p $dst && cp -r $src/* $dst/
 sed -i 's#sys.path.insert(0, "/tmp/seedshims")#sys.path.insert(0, __import__("os").path.join(__import__("os").path.dirname(__import__("os").path.dirname(__import__("os").path.abspath(__file__))), "_support"))#' $dst/demo.py
 grep -n "/tmp/" $dst/demo.py | grep -v "argv\|default" | head -5
 git -C /repo worktree remove --force /tmp/seed_${id}${tag} 2>/dev/null
 rm -rf $src
-cd /verif && tools/run_seeded.sh ${id}-${let} 2>&1 | tail -2 | cut -c1-330
+cd $ROOT && tools/run_seeded.sh ${id}-${let} 2>&1 | tail -2 | cut -c1-330
 tools/confirm_seeded.sh ${id}-${let} 2>&1 | tail -1 | cut -c1-260
